@@ -156,6 +156,40 @@ def job_tables(ctx, mode):
     return c03.job_lengths(ctx, mode, K=C.KWIDE)
 
 
+def job_duration_year(ctx, mode):
+    """the year and month lengths durations are converted with follow the mode: a nominal Duration's
+    (days, seconds) equivalent is years * <common-year length of the mode> + months * 30 + days"""
+    data = ctx.data
+    C.set_mode(data, mode)
+
+    def make(e):
+        return {"y": e.var("y", -1000, 1000), "mo": e.var("mo", -1000, 1000), "d": e.var("d", -100000, 100000),
+                "h": e.var("h", -23, 23)}
+
+    def body(i):
+        d = data.Duration(years=i["y"], months=i["mo"], days=i["d"], hours=i["h"])
+        one = data.Duration(years=1)
+        return d.get_days_and_seconds(), d.get_seconds(), bool(one > data.Duration(days=R.diy_const(mode) - 1)), \
+            bool(one < data.Duration(days=R.diy_const(mode) + 1))
+
+    def post(i, out):
+        if out[0] != "ok":
+            return [("no exception", False)]
+        (days, secs), total, gt, lt = out[1]
+        want = L(i["y"]) * R.diy_const(mode) + L(i["mo"]) * 30 + L(i["d"])
+        tot = want * 86400 + L(i["h"]) * 3600
+        return [("a year counts as the mode's common-year length, a month as 30 days", L(days) * 86400 + L(secs) == tot),
+                ("get_seconds agrees", L(total) == tot),
+                ("P1Y lies strictly between one day less and one day more than the mode's year", gt and lt)]
+
+    def case_of(v, i):
+        return {"check": "duration_year", "mode": mode, "kw": {"years": v["y"], "months": v["mo"], "days": v["d"], "hours": v["h"]}}
+
+    return sym_run("duration_year[%s]" % mode, make, None, body, post, case_of,
+                   bounds={"years, months": "+-1000", "days": "+-100000", "hours": "+-23"},
+                   scenarios=lambda i: {"duration year length": True})
+
+
 BATTERY = r'''
 import json, sys
 from metomi.isodatetime import data as d
@@ -301,6 +335,20 @@ def replay(case, M):
     k = case["check"]
     if k == "lengths":
         return c03.replay(case, M)
+    if k == "duration_year":
+        data.CALENDAR.set_mode(case["mode"])
+        try:
+            d = data.Duration(**case["kw"])
+            kw = case["kw"]
+            want = (kw["years"] * R.diy_const(case["mode"]) + kw["months"] * 30 + kw["days"]) * 86400 + kw["hours"] * 3600
+            got = d.get_seconds()
+            one = data.Duration(years=1)
+            n = R.diy_const(case["mode"])
+            bad = got != want or not (one > data.Duration(days=n - 1)) or not (one < data.Duration(days=n + 1))
+            return bad, "[%s] %s .get_seconds() = %s, expected %s (year = %d days); P1Y vs P%dD / P%dD: %s %s" % (
+                case["mode"], d, got, want, n, n - 1, n + 1, one > data.Duration(days=n - 1), one < data.Duration(days=n + 1))
+        finally:
+            data.CALENDAR.set_mode("gregorian")
     if k == "cache_key":
         fn = getattr(data, case["fn"])
         args = case["args"]
@@ -350,6 +398,7 @@ def jobs(tier):
             J.append(("job_cache_key", dict(fname=f, m1=a, m2=b)))
     for s in sp:
         J.append(("job_tables", dict(mode=s)))
+        J.append(("job_duration_year", dict(mode=s)))
     J.append(("job_sweep", {}))
     return J
 
